@@ -49,6 +49,9 @@ class Ctx:
         self.assumptions = []
         self.notes = []
         self.outdir = os.path.join(VERIF, "out", pid)
+        self.alt_repo = REPO != "/repo"
+        if self.alt_repo:
+            self.outdir = os.path.join("/tmp", "verif-out", pid)
         self.known = load_known(pid)
         self._nviol = 0
         self.replay_mode = False
@@ -166,6 +169,15 @@ class Ctx:
     # ------------------------------------------------------------- Go side
     def build(self, cmd, race=False, tags="verif", overlay=None):
         hdir = os.path.join(VERIF, "harness")
+        if REPO != "/repo":
+            # checks run against a scratch worktree (mutant testing): private copy of the
+            # harness module whose replace directive points at that worktree
+            hcopy = os.path.join(self.scratch, "harness")
+            if not os.path.isdir(hcopy):
+                shutil.copytree(hdir, hcopy)
+                gm = open(os.path.join(hcopy, "go.mod")).read().replace("=> /repo", "=> " + REPO)
+                open(os.path.join(hcopy, "go.mod"), "w").write(gm)
+            hdir = hcopy
         try:
             shutil.copyfile(os.path.join(REPO, "go.sum"), os.path.join(hdir, "go.sum"))
         except OSError:
@@ -234,8 +246,11 @@ class Ctx:
                 self.known_hits[sig] = (d, n + 1)
                 return
         self._nviol += 1
-        if self._nviol > 50:
-            return
+        self._persig = getattr(self, "_persig", {})
+        self._persig[sig] = self._persig.get(sig, 0) + 1
+        if self._persig[sig] > 3 or len(self.violations) >= 20:
+            if len(self.violations) > 0:
+                return
         path = None
         if not self.replay_mode:
             os.makedirs(self.outdir, exist_ok=True)
@@ -262,7 +277,7 @@ class Ctx:
         ev = dict(property_id=self.id, tier=self.tier, seed=self.seed, level=level,
                   coverage=cov, assumptions=self.assumptions, wall_s=round(wall, 2),
                   violations=len(self.violations), notes=self.notes)
-        if not self.replay_mode:
+        if not self.replay_mode and not self.alt_repo:
             os.makedirs(os.path.join(VERIF, "evidence"), exist_ok=True)
             with open(os.path.join(VERIF, "evidence", self.id + ".json"), "w") as fh:
                 json.dump(ev, fh, indent=1, sort_keys=True)
